@@ -462,6 +462,22 @@ ROUND4 = {
            'active script.',
 }
 
+ROUND5 = {
+    'C05': ' A peer connection holds a mailbox selected read-write while '
+           'the connection runs APPEND/COPY/STATUS/NOOP/CHECK/LIST/IDLE: '
+           'mailbox and mode of its own selection must not change.',
+    'C08': ' Names that case-map or normalise to INBOX (U+0131, fullwidth, '
+           'combining dot).',
+    'C09': ' One run in eight uses the Cleartext password scheme.',
+    'C13': ' Words and search strings with characters special to regular '
+           'expressions.',
+    'C16': ' Arrivals from a connection with nothing selected, then changed '
+           'or expunged by an earlier selection as the last event.',
+    'C18': ' SEARCH RETURN options in varied case.',
+    'C20': ' FileLock with 1-6 retry delays, the holder leaving just before '
+           'each re-test (the last included).',
+}
+
 NOT_YET = 'check not built yet in this round (see DESIGN.md section 4)'
 
 
@@ -485,7 +501,8 @@ def main() -> None:
             'engine': 'vf',
             'level_claimed': {'category': c['category'],
                               'text': c['text'] + ROUND3.get(pid, '')
-                              + ROUND4.get(pid, ''),
+                              + ROUND4.get(pid, '')
+                              + ROUND5.get(pid, ''),
                               'design_ref': c['design']},
             'level_note': c['note'],
             'technique': c['technique'],
